@@ -126,7 +126,9 @@ func (h *sessHarness) loadState(path string) {
 	if err := json.Unmarshal(b, &s); err != nil {
 		fatal("state: %v", err)
 	}
+	mg := h.st.mainG
 	h.st = newStore(s.Codec)
+	h.st.mainG = mg
 	for k, v := range s.Recs {
 		d, _ := base64.StdEncoding.DecodeString(v)
 		h.st.recs[k] = d
@@ -193,10 +195,16 @@ func (h *sessHarness) call(withSession bool, f func() (ret string, msg string)) 
 	freezeAt := h.st.freezeAt
 	h.st.freezeAt = -1
 	h.st.endCall()
+	// events of the calling goroutine now; what the package's own goroutines did meanwhile is printed with the tick
+	var early []string
 	for _, e := range h.st.events {
-		emit("%s", e)
+		if strings.HasPrefix(e, "bg ") {
+			early = append(early, e)
+		} else {
+			emit("%s", e)
+		}
 	}
-	h.st.events = h.st.events[:0]
+	h.st.events = append(h.st.events[:0], early...)
 	emit("ret %s", ret)
 	if msg != "" {
 		emit("msg %s", q(msg))
@@ -333,9 +341,11 @@ func runSess(scriptPath, outPath, stateIn, stateOut string, from int) {
 	}
 	lines := strings.Split(strings.TrimRight(string(data), "\n"), "\n")
 
+	mainG := goid()
 	h := &sessHarness{st: newStore("gob"), rng: &countingReader{}, jars: map[string]string{}, cfg: map[string]int64{},
 		ck: cookieCfg{Name: "id", HTTPOnly: true, MaxAge: 315360000, ExpOff: 315360000}}
 	rand.Reader = h.rng
+	h.st.mainG = mainG
 	sessions.Persistence = h.st
 	h.applyCookieCfg()
 	if stateIn != "" {
